@@ -29,9 +29,9 @@ Proof.
   destruct (NameFormat.format_name (nth (Z.to_nat (k - 1)) parts []) f) as [[t b]| | |]; cbn; eauto.
 Qed.
 
-Theorem welltyped_no_crash_real cw G ent cf s p s' :
-  ctx_ok G = true -> check G ent cf s p = Some s' ->
-  forall n st, state_ok G ent st -> sabs (st_stack st) s ->
+Theorem welltyped_no_crash_real cw G ent tys cf s p s' :
+  ctx_ok G = true -> check G ent tys cf s p = Some s' ->
+  forall n st, state_ok G ent tys st -> sabs (st_stack st) s ->
   exec_real cw n st p <> Crash /\
-  (forall st', exec_real cw n st p = Ok st' -> state_ok G ent st' /\ sabs (st_stack st') s').
+  (forall st', exec_real cw n st p = Ok st' -> state_ok G ent tys st' /\ sabs (st_stack st') s').
 Proof. intros. eapply welltyped_no_crash; eauto. apply real_fmt_no_crash. Qed.
